@@ -112,6 +112,8 @@ type redisWorld struct {
 	strategyDone int64          // step at which that update was seen to have returned (0: not yet)
 	crashSlots   []map[int]bool // per crash: the slots the crashed master owned, was migrating away or importing
 	crashTimes   []time.Time
+	crashMasters []int             // per crash: the master that died
+	hostRemoved  map[int]time.Time // node -> when discovery withdrew it from the service's host list
 
 	endPhase         int
 	simStart         time.Time
@@ -510,6 +512,7 @@ func (w *redisWorld) inject(f *Fault) bool {
 		if f.Kind == "failover-crash" {
 			w.crashSteps = append(w.crashSteps, w.rt.Step)
 			w.crashTimes = append(w.crashTimes, time.Now())
+			w.crashMasters = append(w.crashMasters, n.MasterOf)
 			owned := map[int]bool{}
 			for s, o := range c.Owner {
 				if int(o) == n.MasterOf {
@@ -564,6 +567,10 @@ func (w *redisWorld) inject(f *Fault) bool {
 		}
 		p := w.env.Proc
 		hs := w.freshHosts(n.Addr)
+		if w.hostRemoved == nil {
+			w.hostRemoved = map[int]time.Time{}
+		}
+		w.hostRemoved[n.Idx] = time.Now()
 		w.hostTasks = append(w.hostTasks, w.rt.Go("harness:host-remove", func() { p.OnSvcHostRemove(hs) }))
 		return true
 	case "host-add":
